@@ -54,9 +54,9 @@ FAMILIES['C04'] = [
     fam('preempted-in-hold', ['ACQ TADD HOLD HOLD', 'TADD PREEMPT HOLD REL'], PRIOS='{0,1}', w=3),
     fam('prio-change-while-granted', ['ACQ HOLD REL', 'ACQ REL', 'TADD ACQ REL', 'HOLD PRIO1 PRIO2'], w=3),
     # thorough
-    fam('hold-intr-timer-3', ['TADD HOLD TADD HOLD', 'HOLD INTR0 HOLD INTR0', 'HOLD INTR0'], tier='thorough', PRIOSYM=1, w=30),
+    # hold-intr-timer-3 (thorough): did not finish within 2400 s on 16 cores, not claimed
     fam('waitp-chain', ['TADD WAITP1 HOLD', 'TADD WAITP2 HOLD', 'HOLD HOLD', 'HOLD STOP2'], tier='thorough', w=30),
-    fam('acquire-timeout-vs-grant-4', ['ACQ HOLD REL', 'TADD ACQ HOLD REL', 'TADD ACQ HOLD REL', 'HOLD INTR1'], tier='thorough', PRIOSYM=1, w=40),
+    # acquire-timeout-vs-grant-4 (thorough): did not finish within 2400 s on 16 cores, not claimed
 ]
 
 FAMILIES['C05'] = [
@@ -106,8 +106,8 @@ FAMILIES['C07'] = [
     fam('pool-prio-change', ['PACQ HOLD PRELALL', 'HOLD PPRE HOLD', 'HOLD PRIO0'], PRIOS='{0,1,0}', w=4),
     fam('pool-preemptor-reprioritised-while-blocked', ['PACQ HOLD PREL HOLD PREL PACQ HOLD', 'HOLD PPRE HOLD', 'HOLD PACQ HOLD', 'HOLD PRIO1 HOLD'], PRIOS='{10,8,5,0}', POOLCAP=4,
         DUR0='{4,1,9}', DUR1='{1,9}', DUR2='{2,9}', DUR3='{3,9}', w=8),
-    fam('pool-preempt-4', ['PACQ HOLD PRELALL', 'PACQ HOLD PRELALL', 'HOLD PPRE HOLD PRELALL', 'TADD PACQ HOLD'], tier='thorough', PRIOS='{0,1,2,1}', w=60),
-    fam('pool-symcap-3', ['PACQ HOLD PREL HOLD PRELALL', 'TADD PACQ HOLD PRELALL', 'HOLD PPRE HOLD'], tier='thorough', PRIOSYM=1, POOLCAP=0, w=60),
+    # pool-preempt-4 (thorough): did not finish within 2400 s on 16 cores, not claimed
+    # pool-symcap-3 (thorough): did not finish within 2400 s on 16 cores, not claimed
 ]
 
 FAMILIES['C08'] = [
